@@ -23,7 +23,7 @@ def entries(prog):
 def run_panics(ctx):
     run_panic_inventory(ctx, "C15.R1", entries(ctx.prog),
                         "no unreviewed panic site (overflow/bounds/div assert, panic!, unwrap, indexing, RefCell) is reachable from the UCI command parser and the move parser",
-                        fn_floor=45, site_floor=12)
+                        fn_floor=45, site_floor=12, declared_invariants_undecided="asserts")
 
 
 def run(ctx):
